@@ -345,6 +345,18 @@ func (in *Instance) pickGuarded(vals []string, args map[string]geval.Value, deci
 				break
 			}
 			holds, ok := in.Guard(ws[1], args)
+			if !ok && (strings.HasPrefix(ws[1], "anyno(") || strings.HasPrefix(ws[1], "noneno(")) && strings.HasSuffix(ws[1], ")") {
+				// anyno(P): some decision "P(...)=no" was taken on the path; noneno(P): none was
+				ok = true
+				pre := ws[1][strings.Index(ws[1], "(")+1 : len(ws[1])-1]
+				any := false
+				for _, d := range decisions {
+					if strings.HasPrefix(d, pre+"(") && strings.HasSuffix(d, "=no") {
+						any = true
+					}
+				}
+				holds = any == strings.HasPrefix(ws[1], "anyno(")
+			}
 			if !ok {
 				for _, d := range decisions {
 					if d == ws[1] {
